@@ -50,7 +50,7 @@ from vgi_rpc.utils import IPCError as _IPCError
 from vgi_rpc.utils import IpcValidation
 
 PROPERTY = "C05"
-ENCODED = [wire._read_request, shm_mod.resolve_shm_batch, shm_mod.is_shm_pointer_batch, srv._maybe_attach_shm, srv._ConnectionShm.refresh, srv.RpcServer.serve_one, srv.RpcServer.serve]
+ENCODED = [wire._read_request, shm_mod.resolve_shm_batch, shm_mod.is_shm_pointer_batch, shm_mod.ShmSegment.read_buffer, shm_mod.ShmSegment.free, shm_mod.ShmSegment.close, srv._maybe_attach_shm, srv._ConnectionShm.refresh, srv.RpcServer.serve_one, srv.RpcServer.serve]
 BOUNDS = (
     "one request batch; metadata = None | mapping with symbolic presence of vgi_rpc.method / request_version / traceparent / tracestate / "
     "shm_segment_name / shm_segment_size / shm_offset / shm_length / log_level, byte values any bytes len<=3 (incl. non-UTF-8), numeric values "
@@ -72,6 +72,9 @@ ASSUMPTIONS = [
     "ShmSegment.attach := returns a segment | raises FileNotFoundError | PermissionError | ValueError | OSError | struct.error (segment smaller than the header)",
     "the Arrow reader yields exactly one batch then StopIteration (well-framed single-batch request stream)",
     "typed errors RpcError / VersionError raised by _read_request are answered by serve_one and the loop continues (checked against the live source and, with two real requests, against the real server by serve_loop_answers_typed_errors)",
+    "read_request_shm_pointer_real_segment runs the real ShmSegment class (read_buffer / free / close) over a modelled mapping: SharedMemory.buf := "
+    "memoryview of symbolic size with Python's slice semantics (clamping; negative indices from the end), pa.py_buffer := identity on a slice, "
+    "allocator.free := ok | ValueError, an empty region never decodes",
     "a closed ShmSegment fails untyped when used (real class: ``assert buf is not None`` in read_buffer); the fake segment does the same",
 ]
 
@@ -264,7 +267,106 @@ def _deser_stub(buf: object, schema: object) -> _Batch:
         if k == 2:
             raise StopIteration  # the region holds a stream with no batch: read_next_batch()
         raise pa.ArrowInvalid("Invalid IPC stream")
+    if isinstance(buf, _Region) and buf.stop <= buf.start:
+        # an empty region cannot hold an IPC stream whatever the solver chose for its contents
+        raise pa.ArrowInvalid("Tried reading schema message, was null or length 0")
     return _Batch(len(schema), _H["resolved_rows"])  # type: ignore[arg-type]
+
+
+# --- the REAL ShmSegment class over a modelled mapping --------------------------------------------------------
+# ``ShmSegment.read_buffer`` / ``free`` / ``close`` / ``name`` are the repository's own bytecode; what is modelled is
+# the memory under them: ``SharedMemory.buf`` as a memoryview of symbolic size with Python's documented slice
+# semantics (clamping, negative indices count from the end), ``pa.py_buffer`` as the identity on a slice of it, and
+# the allocator's ``free`` as ok | ValueError.
+
+
+class _Region:
+    """A slice ``buf[start:stop]`` of the modelled mapping, bounds already clamped to it (``stop <= start``: empty)."""
+
+    def __init__(self, start: int, stop: int) -> None:
+        self.start, self.stop = start, stop
+
+    def __getattr__(self, name: str) -> object:
+        raise HarnessModelError(f"shm region used through .{name}")
+
+
+class _Mem:
+    """memoryview stand-in: ``len()`` and slicing only (Python slice semantics for step 1)."""
+
+    def __init__(self, size: int) -> None:
+        self._size = size
+
+    def __len__(self) -> int:
+        return self._size
+
+    def __getitem__(self, key: object) -> _Region:
+        if not isinstance(key, slice) or key.step is not None:
+            raise HarnessModelError("modelled mapping supports plain slices only")
+        n = self._size
+
+        def clamp(v: object, default: int) -> int:
+            if v is None:
+                return default
+            if v < 0:  # type: ignore[operator]
+                v = v + n  # type: ignore[operator]
+                return 0 if v < 0 else v
+            return n if v > n else v  # type: ignore[operator,return-value]
+
+        return _Region(clamp(key.start, 0), clamp(key.stop, n))
+
+    def __getattr__(self, name: str) -> object:
+        raise HarnessModelError(f"modelled mapping used through .{name}")
+
+
+class _FakeShm:
+    """multiprocessing.shared_memory.SharedMemory stand-in: buf / name / size / close()."""
+
+    def __init__(self, size: int) -> None:
+        self.buf: object = _Mem(size)
+        self.name = "seg"
+        self.size = size
+        self.closed = 0
+
+    def close(self) -> None:
+        self.closed += 1
+        self.buf = None
+
+    def __getattr__(self, name: str) -> object:
+        raise HarnessModelError(f"SharedMemory stand-in used through .{name}")
+
+
+class _FakeAllocator:
+    """ShmAllocator contract: free(offset) succeeds or raises ValueError (no allocation at that offset)."""
+
+    def __init__(self, free_raises: bool) -> None:
+        self.free_raises = free_raises
+        self.freed: list[object] = []
+        self._buf: object = None  # (ShmSegment.close() drops the allocator's view of the mapping)
+
+    def free(self, offset: int) -> None:
+        self.freed.append(offset)
+        if self.free_raises:
+            raise ValueError("No allocation at offset")
+
+    def __getattr__(self, name: str) -> object:
+        raise HarnessModelError(f"allocator stand-in used through .{name}")
+
+
+class _PaBufNS:
+    @staticmethod
+    def py_buffer(obj: object) -> object:
+        if isinstance(obj, _Region):
+            return obj
+        raise HarnessModelError("pa.py_buffer of something that is not a slice of the modelled mapping")
+
+    def __getattr__(self, name: str) -> object:
+        raise HarnessModelError(f"pa.{name} is not modelled inside ShmSegment.read_buffer")
+
+
+class _RealSeg(shm_mod.ShmSegment):
+    """The repository's ShmSegment (real free / close / name), read_buffer re-globalised onto the ``pa`` stand-in."""
+
+    read_buffer = reglobalize(shm_mod.ShmSegment.read_buffer, **({"pa": _PaBufNS()} if "pa" in shm_mod.ShmSegment.read_buffer.__code__.co_names else {}))
 
 
 _resolve = reglobalize(
@@ -761,6 +863,67 @@ def read_request_shm_pointer_garbage_region(off: int, length: int, fail_kind: in
     except Exception:  # noqa: BLE001
         return False  # incl. ArrowInvalid / StopIteration: both END the serve loop (the latter without any reply)
     return True  # accepted after all (e.g. served inline): a response is as good an answer as a typed error for C05
+
+
+def _replay_pointer_vs_segment(a: dict) -> str | None:
+    """A pointer request against a real static segment: the counterexample's own numbers, the same region placed
+    relative to the real segment's end (the counterexample's segment size is the model's, not the real one's), and the
+    standard probes — in range holding no stream, far past the end, negative, empty."""
+    real_size = shm_mod.HEADER_SIZE + 262144
+    off, ln, size = int(a.get("off", 0)), int(a.get("length", 0)), int(a.get("size", 0))
+    if a.get("decode_ok") and 0 <= off and 0 <= ln and off + ln <= size:
+        return _replay_pointer(dict(a, has_off=True, has_len=True, rows=0))
+    good = {md.RPC_METHOD_KEY: b"add", md.REQUEST_VERSION_KEY: md.REQUEST_VERSION}
+    tried: list = []
+    for o, n in ((off, ln), (real_size + (off - size), ln), (real_size - 4, 16), (shm_mod.HEADER_SIZE + 4464, 10), (10**9, 10), (-5, 3), (5, -3), (shm_mod.HEADER_SIZE, 0)):
+        if abs(o) > 10**15 or abs(n) > 10**15 or (o, n) in tried:
+            continue
+        tried.append((o, n))
+        m = dict(good)
+        m[md.SHM_OFFSET_KEY], m[md.SHM_LENGTH_KEY] = str(o).encode(), str(n).encode()
+        dead = _serve_and_observe(m, 0, int(a.get("ncols", 2)), static_region="none")
+        if dead:
+            return dead
+    return None
+
+
+@cond(q=90, t=300, stubs=[_STUB_READER, _STUB_INT, "SharedMemory.buf := memoryview model of symbolic size (len, slice with clamping); pa.py_buffer := identity on a slice; "
+                          "allocator.free := ok | ValueError; _deserialize_from_shm := batch | ArrowInvalid | OSError | StopIteration (always a failure for an empty region); strip_keys / merge_metadata := opaque"],
+      encoded=[wire._read_request, shm_mod.resolve_shm_batch, shm_mod.ShmSegment.read_buffer, shm_mod.ShmSegment.free, shm_mod.ShmSegment.close],
+      replay=_replay_pointer_vs_segment,
+      bound="valid method/version; 0-row pointer request, offset / length any int (negative, past the end, ...) against the REAL ShmSegment class over a mapping of any size >= 0; "
+            "static/cached or per-request (attached) segment; region decode ok | 3 failure classes; free ok | ValueError; 0..2 columns",
+      signature=lambda args, conc: _sig("C05:shm-pointer:", "untyped-exception"))
+def read_request_shm_pointer_real_segment(off: int, length: int, size: int, decode_ok: bool, fail_kind: int, owned: bool, free_raises: bool, ncols: int) -> bool:
+    """
+    pre: size >= 0 and 0 <= fail_kind <= 2 and 0 <= ncols <= 2
+    post: _
+    """
+    _reset()
+    _H["batch"] = _Batch(ncols, 0)
+    _H["decode_ok"] = decode_ok
+    _H["decode_fail"] = fail_kind
+    _H["resolved_rows"] = 1
+    _H["md"] = _MD([
+        _entry("method", True, b"add"), _entry("version", True, md.REQUEST_VERSION),
+        _entry("off", True, _Num(True, off)), _entry("len", True, _Num(True, length)),
+    ], False)
+    seg = _RealSeg(_FakeShm(size), _FakeAllocator(free_raises))  # type: ignore[arg-type]
+    exc: BaseException | None = None
+    try:
+        if owned:
+            _read_request(object(), attach_shm=lambda _m: seg)
+        else:
+            _read_request(object(), shm=seg)
+    except Exception as e:  # noqa: BLE001
+        exc = e
+    kind = _classify(exc)
+    if kind == "other":
+        return _fail("pointer-outside-segment-escapes" if (off < 0 or length < 0 or off + length > size) else "untyped-exception")
+    if kind == "arrow":
+        return _fail("undecodable-region-ends-connection")  # the request's own stream was valid IPC and is drained
+    # a static / cached segment must stay usable for the connection's later requests
+    return owned or seg._shm.closed == 0 or _fail("static-segment-closed-by-request")
 
 
 def _replay_empty_stream(a: dict) -> str | None:
